@@ -130,6 +130,9 @@ def lifecycle_oracle(run, sim, label, cfg, challenge_steps=None):
         toks = [v[3] for v in view] + [v[2] for v in sim.tviews[k] if v[2] != 0]
         if len(set(toks)) != len(toks):
             run.oracle_violation("equal tokens", {"what": "equal tokens", "label": label, "step": k, "tokens": toks}, "context.py:get_token")
+        if any(v[3] == 0 for v in view):
+            run.oracle_violation("connected client without token", {"what": "connected client without token", "label": label, "step": k,
+                                                                    "tokens": [v[3] for v in view]}, "context.py:_onConnect")
         if len(toks) > 1:
             facts.add("many")
         if k + 1 < len(sim.steps):
